@@ -63,6 +63,7 @@ type done struct {
 	stderr string
 	curRec string
 	wall   time.Duration
+	cpu    time.Duration
 }
 
 // runWorker runs one unit in a child process.
@@ -104,6 +105,9 @@ func runWorker(dir string, u *Unit, watchdog time.Duration, verbose bool) *done 
 		d.crash = "hang"
 	}
 	d.wall = time.Since(t0)
+	if ps := cmd.ProcessState; ps != nil {
+		d.cpu = ps.UserTime() + ps.SystemTime()
+	}
 	d.stderr = errb.String()
 	if cb, err := os.ReadFile(cf); err == nil {
 		d.curRec = strings.TrimSpace(string(cb))
@@ -236,7 +240,7 @@ func main() {
 	if thorough {
 		r.Budget = 17 * time.Minute
 	} else {
-		r.Budget = 100 * time.Second
+		r.Budget = 105 * time.Second
 	}
 
 	// ---- 1. probe ----------------------------------------------------------
@@ -328,7 +332,7 @@ func main() {
 	var harness []string
 	keySets := map[string][]string{} // validation: name -> key set hashes of the modes
 	slowest := ""
-	var slowestT time.Duration
+	var slowestT, cpuTotal time.Duration
 	for _, d := range all {
 		part := partOf(d.u)
 		if perPart[part] == nil {
@@ -339,8 +343,9 @@ func main() {
 		if d.wall > slowestT {
 			slowestT, slowest = d.wall, d.u.Name
 		}
+		cpuTotal += d.cpu
 		if os.Getenv("C20_TIMES") != "" && d.res != nil {
-			fmt.Fprintf(os.Stderr, "TIME %-40s %6.1fs exec=%d states=%d\n", d.u.Name, d.wall.Seconds(), d.res.Executions, d.res.States)
+			fmt.Fprintf(os.Stderr, "TIME %-40s %6.1fs cpu=%.1fs exec=%d states=%d\n", d.u.Name, d.wall.Seconds(), d.cpu.Seconds(), d.res.Executions, d.res.States)
 		}
 		if d.crash != "" {
 			viols = append(viols, &violation{key: part + "/crash/" + d.crash, crash: true, unit: d.u.ID, u: d.u, len: 0,
@@ -475,6 +480,7 @@ func main() {
 		"violations_confirmed":          confirmed,
 		"violations_unreproducible":     unrepro,
 		"slowest_unit":                  fmt.Sprintf("%s %.1fs", slowest, slowestT.Seconds()),
+		"worker_cpu_seconds":            int(cpuTotal.Seconds()),
 		"state_key":                     keyArgument,
 		"rule":                          "states = size of the per-unit seen-sets (summed over independent units; a unit = one alphabet subset x one initial configuration); transitions = executed Malloc/Free/defrag events whose outcome was checked; every transition is executed on the real allocator from a pristine allocator by replaying the shortest history",
 	}
@@ -557,9 +563,19 @@ func buildUnits(pr *ProbeResult, thorough bool) []*job {
 	}
 	al := alphabet(pr)
 	nb := len(pr.Bounds)
-	depth, pdepth, vdepth, diff := 6, 6, 3, 24
+	depth, pdepth, vdepth, diff := 6, 5, 3, 24
 	if thorough {
 		depth, pdepth, vdepth, diff = 8, 8, 4, 48
+	}
+	// executor goroutines per unit (thorough: the windows are ~10x larger)
+	parFor := func(maxSize int) int {
+		if !thorough {
+			return 1
+		}
+		if maxSize > 16<<10 {
+			return 4
+		}
+		return 2
 	}
 	// sliding windows of 8 sizes over the sorted alphabet (last window aligned to the end)
 	for i := 0; i < len(al); i += 8 {
@@ -567,7 +583,8 @@ func buildUnits(pr *ProbeResult, thorough bool) []*job {
 		if j+8 > len(al) {
 			j = len(al) - 8
 		}
-		add(&Unit{Kind: "seq", Name: fmt.Sprintf("window/%d-%d", al[j], al[j+7]), Sizes: al[j : j+8], Prelude: "fresh", Depth: depth, DiffMod: diff}, 100)
+		add(&Unit{Kind: "seq", Name: fmt.Sprintf("window/%d-%d", al[j], al[j+7]), Sizes: al[j : j+8], Prelude: "fresh", Depth: depth, DiffMod: diff, Par: parFor(al[j+7])},
+			2.5+9*float64(al[j+7])/131040)
 	}
 	// mixed subsets: tiny, mid, largest shared, private in one history
 	ex := append([]int{}, pr.ExactPriv...)
@@ -580,11 +597,11 @@ func buildUnits(pr *ProbeResult, thorough bool) []*job {
 	}
 	for i, s := range mixed {
 		s = uniq(s)
-		add(&Unit{Kind: "seq", Name: fmt.Sprintf("mixed/%d", i), Sizes: s, Prelude: "fresh", Depth: depth, DiffMod: diff}, 100)
+		add(&Unit{Kind: "seq", Name: fmt.Sprintf("mixed/%d", i), Sizes: s, Prelude: "fresh", Depth: depth, DiffMod: diff, Par: parFor(1 << 20)}, 6)
 	}
 	// fresh-vs-reset validation on the first mixed subset
-	add(&Unit{Kind: "seq", Name: "validate/mixed0/fresh", Sizes: uniq(mixed[0]), Prelude: "fresh", Depth: vdepth, Fresh: true}, 90)
-	add(&Unit{Kind: "seq", Name: "validate/mixed0/reset", Sizes: uniq(mixed[0]), Prelude: "fresh", Depth: vdepth}, 90)
+	add(&Unit{Kind: "seq", Name: "validate/mixed0/fresh", Sizes: uniq(mixed[0]), Prelude: "fresh", Depth: vdepth, Fresh: true}, 5)
+	add(&Unit{Kind: "seq", Name: "validate/mixed0/reset", Sizes: uniq(mixed[0]), Prelude: "fresh", Depth: vdepth}, 5)
 	// per class, non-initial configurations
 	for k, b := range pr.Bounds {
 		lo := 0
@@ -593,8 +610,8 @@ func buildUnits(pr *ProbeResult, thorough bool) []*job {
 		}
 		sizes := uniq([]int{lo, b - 1, b})
 		for _, pre := range []string{"nearfull", "full2free", "fullbg"} {
-			c := float64(pr.PerPage[k]) / 200
-			add(&Unit{Kind: "seq", Name: fmt.Sprintf("class%02d-cap%d/%s", k, b, pre), Sizes: sizes, Prelude: pre, PreSizes: sizes, Depth: pdepth, DiffMod: diff}, 1+c)
+			c := 2.5 + 3.5*float64(pr.PerPage[k])/10922
+			add(&Unit{Kind: "seq", Name: fmt.Sprintf("class%02d-cap%d/%s", k, b, pre), Sizes: sizes, Prelude: pre, PreSizes: sizes, Depth: pdepth, DiffMod: diff}, c)
 		}
 	}
 	// defragmentation families: classes with 8, 12 and 16 slots per page
@@ -634,10 +651,10 @@ func buildUnits(pr *ProbeResult, thorough bool) []*job {
 	for vi, v := range vars {
 		for ci := range dcls {
 			add(&Unit{Kind: "defrag", Name: fmt.Sprintf("defrag/%s/v%d", dnames[ci], vi), Classes: [][]int{dcls[ci]}, Pages: v.pages, Partial: v.partial, Order: v.order, Rest: v.rest, Dist: v.dist, NPat: NumPatQuick},
-				float64(30*len(v.dist)))
+				3.5*float64(len(v.dist)-2))
 		}
 		if len(dcls) > 1 && (vi < 2 || (thorough && len(v.dist) == 3)) {
-			add(&Unit{Kind: "defrag", Name: fmt.Sprintf("defrag/all-%d-classes/v%d", len(dcls), vi), Classes: dcls, Pages: v.pages, Partial: v.partial, Order: v.order, Rest: v.rest, Dist: v.dist, NPat: NumPatQuick}, 300)
+			add(&Unit{Kind: "defrag", Name: fmt.Sprintf("defrag/all-%d-classes/v%d", len(dcls), vi), Classes: dcls, Pages: v.pages, Partial: v.partial, Order: v.order, Rest: v.rest, Dist: v.dist, NPat: NumPatQuick}, 7.5*float64(len(v.dist)-2))
 		}
 	}
 	// integration
@@ -645,7 +662,7 @@ func buildUnits(pr *ProbeResult, thorough bool) []*job {
 		if !thorough && i >= 4 {
 			break
 		}
-		add(&Unit{Kind: "integ", Name: "integ/" + integVariants[i].name, Variant: i}, 60)
+		add(&Unit{Kind: "integ", Name: "integ/" + integVariants[i].name, Variant: i}, 1.5)
 	}
 	// free-running stress (auxiliary)
 	big := []int{pr.Bounds[nb-1], pr.Bounds[nb-2], pr.Bounds[nb-3] - 1, pr.Threshold + 1, 100}
@@ -654,9 +671,9 @@ func buildUnits(pr *ProbeResult, thorough bool) []*job {
 	if thorough {
 		rounds, ops = 30, 2000
 	}
-	add(&Unit{Kind: "stress", Name: "stress/big-8threads", Sizes: big, Threads: 8, Rounds: rounds, OpsPer: ops, MaxLive: 40}, 80)
-	add(&Unit{Kind: "stress", Name: "stress/mixed-16threads", Sizes: small, Threads: 16, Rounds: rounds, OpsPer: ops * 2, MaxLive: 12}, 80)
-	add(&Unit{Kind: "stress", Name: "stress/one-class-3threads", Sizes: []int{pr.Bounds[nb-1]}, Threads: 3, Rounds: rounds, OpsPer: ops, MaxLive: 48}, 80)
+	add(&Unit{Kind: "stress", Name: "stress/big-8threads", Sizes: big, Threads: 8, Rounds: rounds, OpsPer: ops, MaxLive: 40}, 2)
+	add(&Unit{Kind: "stress", Name: "stress/mixed-16threads", Sizes: small, Threads: 16, Rounds: rounds, OpsPer: ops * 2, MaxLive: 12}, 2)
+	add(&Unit{Kind: "stress", Name: "stress/one-class-3threads", Sizes: []int{pr.Bounds[nb-1]}, Threads: 3, Rounds: rounds, OpsPer: ops, MaxLive: 48}, 2)
 	return out
 }
 
